@@ -14,4 +14,9 @@ for cfg in ("serde",):
     t = time.time()
     F = facts.extract(cfg)
     print("config %s: %d instances, %d types in %.1fs" % (cfg, len(F.instances), len(F.types), time.time() - t))
+import subprocess  # noqa: E402
+r = subprocess.run(["python3-vt", "-c", "import sympy; print(sympy.__version__)"], stdout=subprocess.PIPE, stderr=subprocess.STDOUT, text=True)
+if r.returncode != 0:
+    raise SystemExit("python3-vt with sympy (tooling interpreter) is required by the C12/C13 checks: " + r.stdout[-300:])
+print("sympy", r.stdout.strip())
 print("setup ok")
